@@ -16,7 +16,8 @@ from common import Ctx, Counters, Failure, confirm, main_wrapper, run_workers, l
 PID = "C09"
 RULE = ("(a) systematic: 2..4 threads x 1..3 failing exec calls with unique path/argv run under a cooperative scheduler built on the "
         "interposed pthread_mutex_lock/unlock of the library (one thread runs at a time; scheduling points: before each lock, after "
-        "each unlock, real-exec entry, thread start/exit); schedules = the default run + EVERY single preemption and (2 threads x 1 "
+        "each unlock, every call the library makes to one of 107 stateful libc functions (trampolines), real-exec entry, thread "
+        "start/exit; outputs file/stdout/stderr/socket, with and without filter chains); schedules = the default run + EVERY single preemption and (2 threads x 1 "
         "call) every pair of preemptions, sampled pairs/triples for larger shapes -- in the plain thread-safe build (record "
         "isolation, deadlock = 'no runnable thread', deterministic) and in the ThreadSanitizer build, where the hand-over between "
         "threads uses raw futexes only (no happens-before edges from the harness) so that an unsynchronised access next to a "
